@@ -380,3 +380,10 @@ fn c23_ttl_class_omitted() {
     kani::cover!(t1 != t2 && r1.is_some() && r2.is_some(), "two different TTLs");
     core::mem::forget((p1, p2, p3));
 }
+
+// Tried after seeded change C24-1 (generic-form RDATA of single-name types
+// validated with validate_uncompressed instead of validate_uncompressed_all) and
+// dropped: a harness calling Parser::parse_name_rdata on ` \# 3 hhhhhh` + LF with
+// six symbolic hex-digit octets (check_backslash_hash + RDATA length field + hex
+// digits + validation) timed out after 1500 s at 14.4 GB - the same wall as every
+// other attempt above helper level in this parser.  C24-1 stays undetected.
